@@ -1,6 +1,8 @@
 package absint
 
 import (
+	"golang.org/x/tools/go/packages"
+	"go/ast"
 	"fmt"
 	"go/types"
 	"os"
@@ -34,7 +36,13 @@ type Panic struct {
 func (p Panic) Error() string { return "runtime panic on a reachable path: " + p.Why }
 
 // ErrVal is an error value that is non-nil exactly under NonNil.
-type ErrVal struct{ NonNil Node }
+// ErrVal is an error value: non-nil exactly under NonNil. Tag identifies a sentinel created by a package-level
+// initialiser (var ErrX = errors.New(…)); "" for errors created while a function runs.
+type ErrVal struct {
+	NonNil Node
+	Tag    string // "" fresh error object, "?" identity depends on the path, else the sentinel's id
+	Cause  string // for wrapped errors: the Tag of the wrapped error (errors.Cause)
+}
 type NilVal struct{}
 type StrVal struct {
 	S     string
@@ -133,7 +141,7 @@ func isErrorType(t types.Type) bool {
 // Zero builds the zero value of a type.
 func (in *Interp) Zero(t types.Type) Value {
 	if isErrorType(t) {
-		return &ErrVal{False}
+		return &ErrVal{NonNil: False}
 	}
 	if IsTimeType(t) {
 		return in.TimeValue(in.D.Const(time.Time{}.UnixNano(), 64, true), t)
@@ -260,6 +268,14 @@ func (in *Interp) ite(c Node, a, b Value) Value {
 		return a
 	}
 	switch x := a.(type) {
+	case *MapVal:
+		if y, ok := b.(*MapVal); ok && x == y {
+			return x
+		}
+	case *FuncVal:
+		if y, ok := b.(*FuncVal); ok && (x == y || (x.Lit == y.Lit && x.Decl == y.Decl)) {
+			return x
+		}
 	case *Bits:
 		y, ok := b.(*Bits)
 		if !ok {
@@ -272,12 +288,23 @@ func (in *Interp) ite(c Node, a, b Value) Value {
 	case *ErrVal:
 		switch y := b.(type) {
 		case *ErrVal:
-			return &ErrVal{in.D.M.ITE(c, x.NonNil, y.NonNil)}
+			pick := func(a, b string) string {
+				switch {
+				case a == b:
+					return a
+				case x.NonNil == False:
+					return b
+				case y.NonNil == False:
+					return a
+				}
+				return "?"
+			}
+			return &ErrVal{NonNil: in.D.M.ITE(c, x.NonNil, y.NonNil), Tag: pick(x.Tag, y.Tag), Cause: pick(x.Cause, y.Cause)}
 		case NilVal:
-			return &ErrVal{in.D.M.And(c, x.NonNil)}
+			return &ErrVal{NonNil: in.D.M.And(c, x.NonNil)}
 		case *Iface:
 			if _, isNil := y.Dyn.(NilVal); isNil {
-				return &ErrVal{in.D.M.And(c, x.NonNil)}
+				return &ErrVal{NonNil: in.D.M.And(c, x.NonNil)}
 			}
 		}
 	case NilVal:
@@ -285,7 +312,7 @@ func (in *Interp) ite(c Node, a, b Value) Value {
 		case NilVal:
 			return a
 		case *ErrVal:
-			return &ErrVal{in.D.M.And(in.D.M.Not(c), y.NonNil)}
+			return &ErrVal{NonNil: in.D.M.And(in.D.M.Not(c), y.NonNil)}
 		case *Slice:
 			if y.Len() == 0 {
 				return y
@@ -352,7 +379,7 @@ func (in *Interp) ite(c Node, a, b Value) Value {
 		}
 		if y, ok := b.(*ErrVal); ok {
 			if _, xn := x.Dyn.(NilVal); xn {
-				return &ErrVal{in.D.M.And(in.D.M.Not(c), y.NonNil)}
+				return &ErrVal{NonNil: in.D.M.And(in.D.M.Not(c), y.NonNil)}
 			}
 		}
 		panic(SplitRequest{Cond: c, Why: "interface dynamic type depends on a symbolic condition"})
@@ -474,4 +501,35 @@ func TimeNS(v Value) (*Bits, bool) {
 	}
 	b, ok := st.F["ns"].V.(*Bits)
 	return b, ok
+}
+
+// MapVal is a Go map with constant keys (bool, integer or known string); reference semantics: copies share it.
+type MapVal struct {
+	KT, VT types.Type
+	E      map[string]*Cell
+	Order  []string
+}
+
+// FuncVal is a function value: a function literal with the cells of the activation it was created in (captured by
+// reference), or a named function of the module.
+type FuncVal struct {
+	Lit  *ast.FuncLit
+	Env  map[types.Object]*Cell
+	Pkg  *packages.Package
+	Decl *types.Func
+}
+
+// mapKey renders a constant key; ok=false when the key is symbolic.
+func (in *Interp) mapKey(v Value) (string, bool) {
+	switch x := v.(type) {
+	case *Bits:
+		if k, ok := in.constLive(x); ok {
+			return fmt.Sprintf("i:%d", k), true
+		}
+	case *StrVal:
+		if x.Known {
+			return "s:" + x.S, true
+		}
+	}
+	return "", false
 }
